@@ -58,6 +58,9 @@ def check(ctx: Ctx):
     from . import c09
 
     c03._guarded(ctx, "R09.1", c09.check_codec_width)
+    from . import c10
+
+    c03._guarded(ctx, "R10.3", c10.check_crop_mask)
     c03._guarded(ctx, "R09.1", c09.check_codec_width_relational)
 
 
